@@ -331,6 +331,7 @@ class Engine:
         self.setattr_hooks = {}  # (kind, attr) -> fn(engine, value, new): attribute assignment on an abstract object
         self.stmt_ghosts = False
         self.format_hooks = {}
+        self.opaque_exprs = {}     # source text of a comprehension -> factory(engine): taken as that value, elements not evaluated
         self.heap = {}            # global ghost state (object heaps) visible to code hooks and to every spec
         from . import builtins as B
         B.install(self)
@@ -949,6 +950,11 @@ class Engine:
 
     def eval_ListComp(self, node, env):
         from .builtins import comprehension
+        if self.opaque_exprs:
+            key = ' '.join(ast.unparse(node).split())
+            if key in self.opaque_exprs:
+                # declared by the contract (and listed among its assumptions): e.g. the text fragments of a log message
+                return self.opaque_exprs[key](self)
         return comprehension(self, node, env, 'list')
 
     def eval_GeneratorExp(self, node, env):
@@ -1633,6 +1639,10 @@ class Engine:
             # _it<loop>(q): the q-th element of the traversal (e.g. of the arbitrary enumeration of a set)
             env.vars['_it' + tag.replace('.', '_')] = Builtin(
                 lambda e, q, _itv=itv: _itv.get(q.e if isinstance(q, SV) else (z3.IntVal(q) if isinstance(q, int) else q)), '_it' + tag)
+            if getattr(itv, 'pos', None) is not None:
+                # _pos<loop>(x): the place of x in the enumeration of a set (meaningful for members)
+                env.vars['_pos' + tag.replace('.', '_')] = Builtin(
+                    lambda e, x, _itv=itv: SV(TInt, _itv.pos(to_z3(x, _itv.pos_ty))), '_pos' + tag)
         for k, inv in enumerate(spec.inv):
             self.oblige(self._b(self.spec_truth(inv, env)), 'inv-init:%s:%d' % (tag, k), ln)
         which = self.choose(['iter', 'exit'])
